@@ -4,7 +4,7 @@
    data (signed tensors included), on the iteration caps or on when the loops stop.
    vnn v = every entry of the vector >= 0;  mnn M = every entry of the matrix >= 0;  vge eps v = every entry >= eps. *)
 From Coq Require Import List Arith Bool Reals QArith ZArith Lra.
-From TLV Require Import Base.Shape Base.PyList Base.Tensor Base.Ops Model.Nonneg Model.NonnegSign Model.NonnegFlow Model.NonnegOptions Proofs.NonnegProofs Proofs.NonnegProofs2 Proofs.NonnegSignProofs Proofs.NonnegFlowProofs Proofs.NonnegOptionsProofs Model.NonnegP2Ls Proofs.NonnegP2LsProofs Proofs.NonnegFlowPeelProofs Model.NonnegCcpSpec Proofs.NonnegCcpSpecProofs Proofs.NonnegRound7Proofs Model.NonnegMask Proofs.NonnegMaskProofs.
+From TLV Require Import Base.Shape Base.PyList Base.Tensor Base.Ops Model.Nonneg Model.NonnegSign Model.NonnegFlow Model.NonnegOptions Proofs.NonnegProofs Proofs.NonnegProofs2 Proofs.NonnegSignProofs Proofs.NonnegFlowProofs Proofs.NonnegOptionsProofs Model.NonnegP2Ls Proofs.NonnegP2LsProofs Proofs.NonnegFlowPeelProofs Model.NonnegCcpSpec Proofs.NonnegCcpSpecProofs Proofs.NonnegRound7Proofs Model.NonnegMask Proofs.NonnegMaskProofs Model.NonnegP2Repair Proofs.NonnegP2RepairProofs.
 Import ListNotations.
 Open Scope R_scope.
 
@@ -564,3 +564,21 @@ Example C10_masked_sweep_computes :
   let T := mk [2; 2]%nat [(-1)%Q; 2%Q; 3%Q; (-4)%Q] in let mask := mk [2; 2]%nat [1%Q; 0%Q; 1%Q; 1%Q] in
   data (impute Qops T mask ([1%Q], [[[1%Q]; [2%Q]]; [[1%Q]; [3%Q]]])) = [(-1)%Q; 3%Q; 3%Q; (-4)%Q].
 Proof. exact masked_sweep_computes. Qed.
+
+(* ---- round 8: candidate repair v2 of the known finding (parafac2 projects the factors returned by the caller's line search on the declared modes;
+   Model/NonnegP2Repair.v).  Projecting a step clipped on ls_nn on the modes nn is a step clipped on ls_nn ++ nn ... *)
+Theorem C10_line_step_then_clip : forall (nn ls_nn : list nat) (jump : R) (last cur : list (list (list R))),
+  clip_modes Rops nn (line_step Rops ls_nn jump last cur) = line_step Rops (ls_nn ++ nn) jump last cur.
+Proof. exact line_step_then_clip. Qed.
+Print Assumptions C10_line_step_then_clip.
+(* ... and the repaired run satisfies the FULL statement for ANY nn_modes of the caller's object (no `incl` hypothesis left) *)
+Theorem C10_parafac2_user_linesearch_repaired : forall (nrm : list R -> R), (forall v, 0 <= nrm v) ->
+  forall (utm utu : nat -> nat -> @cp_state R -> nat -> list (list R)) (solve : list (list R) -> list (list R) -> list (list R))
+         (inner : nat -> nat -> @cp_state R -> nat -> nat) (istop : nat -> nat -> @cp_state R -> bool) (nn_modes ls_nn_modes : list nat)
+         (n_iter_parafac : nat) (line : nat -> option R) (accept : nat -> @cp_state R -> bool) (normalize : bool)
+         (stop : nat -> @cp_state R -> bool) (n_iter_max : nat) (w : list R) (Fs : list (list (list R))),
+  vnn w -> (forall m, In m nn_modes -> mnn (nth m Fs [])) ->
+  let out := parafac2_repaired Rops nrm utm utu solve inner istop nn_modes ls_nn_modes n_iter_parafac line accept normalize stop n_iter_max (w, Fs) in
+  vnn (fst out) /\ forall m, In m nn_modes -> mnn (nth m (snd out) []).
+Proof. exact parafac2_repaired_nonneg. Qed.
+Print Assumptions C10_parafac2_user_linesearch_repaired.
